@@ -59,6 +59,8 @@ struct osrc {
     const unsigned char *p;
     size_t n, pos;
     unsigned calls;
+    unsigned hiccup_at; /* > 0: the hiccup_at-th driver call (1-based) moves nothing and reports hiccup_code */
+    int hiccup_code;
 };
 
 static int
@@ -66,6 +68,8 @@ osrc_get(void *drv, void *out)
 {
     struct osrc *s = drv;
     s->calls++;
+    if (s->hiccup_at && s->calls == s->hiccup_at)
+        return s->hiccup_code;
     if (s->pos >= s->n)
         return -ENODATA;
     *(unsigned char *)out = s->p[s->pos++];
@@ -314,6 +318,24 @@ roundtrip(int t, uint64_t v)
     if (rc != rn || got != v || os.pos != (size_t)rn)
         vh_fail("decode-source", key, "octets=%s rc=%d value=%016" PRIx64 " consumed=%zu expected value %016" PRIx64,
                 vh_hex(ref, (size_t)rn), rc, got, os.pos, v);
+    /* a driver that is interrupted once (EINTR / EAGAIN, nothing moved) while the varint is read: what the decoder
+     * makes of that is not stated - it may hand the interruption to its caller or try again - but when it reports
+     * success, value, count and consumed octets are those of the encoding */
+    {
+        struct osrc hs = { .p = d, .n = (size_t)rn, .pos = 0, .hiccup_at = 1 + (unsigned)((v ^ (v >> 5)) % (uint64_t)rn),
+                           .hiccup_code = (v >> 2) & 1 ? -EINTR : -EAGAIN };
+        octet_source_init(&src, osrc_get, &hs);
+        got = 0;
+        rc = api_from_source(t, &src, &got);
+        if (rc >= 0 && (rc != rn || got != v || hs.pos != (size_t)rn))
+            vh_fail("decode-source-interrupted", key, "octets=%s, driver call %u reports %d once: rc=%d value=%016" PRIx64 " consumed=%zu expected value %016" PRIx64,
+                    vh_hex(ref, (size_t)rn), hs.hiccup_at, hs.hiccup_code, rc, got, hs.pos, v);
+        VH_COUNT("source interrupted once while a varint is read");
+        if (rc >= 0)
+            VH_COUNT("interrupted source: decoder carried on and succeeded");
+        else
+            VH_COUNT("interrupted source: interruption handed to the caller");
+    }
 }
 
 static void
@@ -620,4 +642,5 @@ harness_run(void)
                                  "decoder input behind consumed octets: cut off by the end of the buffer" };
     for (size_t i = 0; i < sizeof req / sizeof req[0]; i++)
         vh_require(req[i]);
+    vh_require("source interrupted once while a varint is read");
 }
